@@ -8,6 +8,7 @@ def main():
     t0 = time.time()
     try:
         core.build_drive()
+        core.build_oracle()
         try:
             from vlib import probes
             probes.setup()
